@@ -202,108 +202,156 @@ Print Assumptions C03_atomic_store_from_rmw_atomic.
 
 Require Import LV.Base LV.VV LV.VVFacts LV.Path LV.PathSpec LV.PathTerm LV.PathDistinct LV.PathApi LV.Prog LV.Objects LV.Exec LV.Atomic LV.Ops LV.Check LV.AtomicFacts LV.AtomicCoherence LV.AtomicCoRR.
 
-(* COHERENCE OVER SEQUENCES of operations by several threads on one atomic (AtomicCoRR.v): a machine whose steps are literally the model's atomic_load / atomic_store / atomic_rmw (after fix c0421c4), plus arbitrary extra happens-before edges between threads *)
-(* the invariant (clocks bounded by their owners, every live store keyed by its storing thread's stamp, the key order is exactly vv_lt, no two live stores ordered both ways, first-seen stamps bounded) is preserved by every run *)
-Theorem C03_mrun_inv2 :
-  forall (evs : list (nat * aop)) (st st' : mstate),
-       Inv2 st -> mrun true st evs = Some st' -> Inv2 st'.
-Proof. exact mrun_inv2. Qed.
-Print Assumptions C03_mrun_inv2.
+(* COHERENCE OVER SEQUENCES of operations by several threads on one atomic (AtomicCoRR.v), with arbitrary extra happens-before edges between threads. Proved for the machine whose load rule is the one of fix c0421c4 (suffix _c0421c4); the model's current functions add the RMW-atomicity closure of fix 01ecff8 after it: they coincide with that machine on every run without RMWs (theorems below), and the closure itself is covered by computed searches *)
+(* the model's apply_load_coherence is the c0421c4 rule followed by the RMW-atomicity closure *)
+Theorem C03_model_alc_eq :
+  forall (s : atomic_state) (caus : vv) (index : nat),
+       apply_load_coherence s caus index =
+       at_set_stores s
+         (close_rmw_atomicity (4 * MAX_ATOMIC_HISTORY) (Nat.min (at_cnt s) MAX_ATOMIC_HISTORY)
+            (at_stores (alc_c0421c4 s caus index))) (at_cnt s).
+Proof. exact model_alc_eq. Qed.
+Print Assumptions C03_model_alc_eq.
 
-(* loom's `assert_ne!(mo_i, mo_j)` never fires: no two live stores ever have equal modification-order clocks *)
-Theorem C03_mlts_never_none :
+(* on runs without RMWs the machine built from the model's atomic_load / atomic_store is, step for step, the c0421c4 machine *)
+Theorem C03_mrun_model_eq :
+  forall (evs : list (nat * aop)) (st : atomic_state * list vv),
+       no_src (at_stores (fst st)) -> rmw_free evs -> mrun RModel st evs = mrun RC0421 st evs.
+Proof. exact mrun_model_eq. Qed.
+Print Assumptions C03_mrun_model_eq.
+
+(* so for the model's own functions on RMW-free runs: the invariant holds and loom's `assert_ne!(mo_i, mo_j)` never fires *)
+Theorem C03_model_rmw_free_inv :
   forall st : mstate,
-       reach st ->
+       reach_model_rmw_free st ->
+       Inv2 st /\
        (forall (t : nat) (c : vv) (ly : option nat) (o : ord),
         match_load_to_stores (fst st) t c ly o <> None) /\ match_rmw_to_stores (fst st) <> None.
-Proof. exact mlts_never_none. Qed.
-Print Assumptions C03_mlts_never_none.
+Proof. exact model_rmw_free_inv. Qed.
+Print Assumptions C03_model_rmw_free_inv.
+
+(* the invariant (clocks bounded by their owners, every live store keyed by its storing thread's stamp, the key order is exactly vv_lt, no two live stores ordered both ways, first-seen stamps bounded) is preserved by every run *)
+Theorem C03_mrun_inv2_c0421c4 :
+  forall (evs : list (nat * aop)) (st st' : mstate),
+       Inv2 st -> mrun RC0421 st evs = Some st' -> Inv2 st'.
+Proof. exact mrun_inv2_c0421c4. Qed.
+Print Assumptions C03_mrun_inv2_c0421c4.
+
+(* no two live stores ever have equal modification-order clocks *)
+Theorem C03_mlts_never_none_c0421c4 :
+  forall st : mstate,
+       reach_c0421c4 st ->
+       (forall (t : nat) (c : vv) (ly : option nat) (o : ord),
+        match_load_to_stores (fst st) t c ly o <> None) /\ match_rmw_to_stores (fst st) <> None.
+Proof. exact mlts_never_none_c0421c4. Qed.
+Print Assumptions C03_mlts_never_none_c0421c4.
 
 (* THE KEY LEMMA: an edge `a <mo b` between live stores is never lost, whatever any thread does afterwards *)
-Theorem C03_run_stable :
+Theorem C03_run_stable_c0421c4 :
   forall (evs : list (nat * aop)) (st st' : mstate) (a b : nat),
        Inv st ->
-       mrun true st evs = Some st' ->
+       mrun RC0421 st evs = Some st' ->
        lives st a ->
        lives st b -> mo_lt st a b = true -> lives st' a /\ lives st' b /\ mo_lt st' a b = true.
-Proof. exact run_stable. Qed.
-Print Assumptions C03_run_stable.
+Proof. exact run_stable_c0421c4. Qed.
+Print Assumptions C03_run_stable_c0421c4.
 
 (* CoRR / CoWR in happens-before form: once a thread knows a store j (its own store, a store it read, or through any chain of synchronisation), it can never again read a store that was mo-before j *)
-Theorem C03_CoRR_CoWR :
+Theorem C03_CoRR_CoWR_c0421c4 :
   forall (st1 : mstate) (evs : list (nat * aop)) (st2 : mstate) (t i j : nat) (o : ord),
        Inv st1 ->
        lives st1 i ->
        lives st1 j ->
        knows st1 t j ->
-       mo_lt st1 i j = true -> mrun true st1 evs = Some st2 -> mstep true st2 t (XLoad i o) = None.
-Proof. exact CoRR_CoWR. Qed.
-Print Assumptions C03_CoRR_CoWR.
+       mo_lt st1 i j = true ->
+       mrun RC0421 st1 evs = Some st2 -> mstep RC0421 st2 t (XLoad i o) = None.
+Proof. exact CoRR_CoWR_c0421c4. Qed.
+Print Assumptions C03_CoRR_CoWR_c0421c4.
 
-(* read-read coherence for one thread with arbitrary steps of arbitrary threads in between, no side condition *)
-Theorem C03_CoRR_same_thread :
+(* read-read coherence for one thread with arbitrary steps of arbitrary threads in between *)
+Theorem C03_CoRR_same_thread_c0421c4 :
   forall (st0 : mstate) (t j : nat) (o : ord) (st1 : mstate) (evs : list (nat * aop))
          (st2 : mstate) (i : nat) (o' : ord),
        Inv2 st0 ->
-       mstep true st0 t (XLoad j o) = Some st1 ->
+       mstep RC0421 st0 t (XLoad j o) = Some st1 ->
        lives st1 i ->
-       mo_lt st1 i j = true -> mrun true st1 evs = Some st2 -> mstep true st2 t (XLoad i o') = None.
-Proof. exact CoRR_same_thread. Qed.
-Print Assumptions C03_CoRR_same_thread.
+       mo_lt st1 i j = true ->
+       mrun RC0421 st1 evs = Some st2 -> mstep RC0421 st2 t (XLoad i o') = None.
+Proof. exact CoRR_same_thread_c0421c4. Qed.
+Print Assumptions C03_CoRR_same_thread_c0421c4.
 
 (* write-read coherence likewise *)
-Theorem C03_CoWR_same_thread :
+Theorem C03_CoWR_same_thread_c0421c4 :
   forall (st0 : mstate) (t : nat) (v : N) (o : ord) (st1 : mstate) 
          (evs : list (nat * aop)) (st2 : mstate) (i : nat) (o' : ord),
        Inv st0 ->
-       mstep true st0 t (XStore v o) = Some st1 ->
+       mstep RC0421 st0 t (XStore v o) = Some st1 ->
        lives st1 i ->
        mo_lt st1 i (at_cnt (fst st0)) = true ->
-       mrun true st1 evs = Some st2 -> mstep true st2 t (XLoad i o') = None.
-Proof. exact CoWR_same_thread. Qed.
-Print Assumptions C03_CoWR_same_thread.
+       mrun RC0421 st1 evs = Some st2 -> mstep RC0421 st2 t (XLoad i o') = None.
+Proof. exact CoWR_same_thread_c0421c4. Qed.
+Print Assumptions C03_CoWR_same_thread_c0421c4.
 
 (* read-write coherence: a later store of the thread is mo-after what it read *)
-Theorem C03_CoRW_same_thread :
+Theorem C03_CoRW_same_thread_c0421c4 :
   forall (st0 : mstate) (t j : nat) (o : ord) (st1 : mstate) (evs : list (nat * aop))
          (st2 : mstate) (v : N) (o' : ord) (st3 : mstate),
        Inv2 st0 ->
-       mstep true st0 t (XLoad j o) = Some st1 ->
-       mrun true st1 evs = Some st2 ->
-       mstep true st2 t (XStore v o') = Some st3 -> mo_lt st3 j (at_cnt (fst st2)) = true.
-Proof. exact CoRW_same_thread. Qed.
-Print Assumptions C03_CoRW_same_thread.
+       mstep RC0421 st0 t (XLoad j o) = Some st1 ->
+       mrun RC0421 st1 evs = Some st2 ->
+       mstep RC0421 st2 t (XStore v o') = Some st3 -> mo_lt st3 j (at_cnt (fst st2)) = true.
+Proof. exact CoRW_same_thread_c0421c4. Qed.
+Print Assumptions C03_CoRW_same_thread_c0421c4.
 
 (* write-write coherence *)
-Theorem C03_CoWW_same_thread :
+Theorem C03_CoWW_same_thread_c0421c4 :
   forall (st0 : mstate) (t : nat) (v : N) (o : ord) (st1 : mstate) 
          (evs : list (nat * aop)) (st2 : mstate) (v' : N) (o' : ord) (st3 : mstate),
        Inv st0 ->
-       mstep true st0 t (XStore v o) = Some st1 ->
-       mrun true st1 evs = Some st2 ->
-       mstep true st2 t (XStore v' o') = Some st3 ->
+       mstep RC0421 st0 t (XStore v o) = Some st1 ->
+       mrun RC0421 st1 evs = Some st2 ->
+       mstep RC0421 st2 t (XStore v' o') = Some st3 ->
        mo_lt st3 (at_cnt (fst st0)) (at_cnt (fst st2)) = true.
-Proof. exact CoWW_same_thread. Qed.
-Print Assumptions C03_CoWW_same_thread.
+Proof. exact CoWW_same_thread_c0421c4. Qed.
+Print Assumptions C03_CoWW_same_thread_c0421c4.
 
-(* computed: with the rule before the fix a thread reads its own older store after its newer one (the defect repaired by c0421c4) *)
+(* computed: with the rule before fix c0421c4 a thread reads its own older store after its newer one *)
 Theorem C03_coherence_counterexample_before_fix :
-  lt_in (mrun0 false 2 cex_pre) 1 2 = true /\
-       knows_b (mrun0 false 2 cex_pre) 1 2 = true /\
-       ok_step false (mrun0 false 2 cex_pre) 1 (XLoad 1 Relaxed) = false /\
-       lt_in (mrun0 false 2 cex) 1 2 = false /\
-       ok_step false (mrun0 false 2 cex) 1 (XLoad 1 Relaxed) = true /\
-       cands false (mrun0 false 2 cex) 1 Relaxed = Some [1; 2].
+  lt_in (mrun0 RBefore 2 cex_pre) 1 2 = true /\
+       knows_b (mrun0 RBefore 2 cex_pre) 1 2 = true /\
+       ok_step RBefore (mrun0 RBefore 2 cex_pre) 1 (XLoad 1 Relaxed) = false /\
+       lt_in (mrun0 RBefore 2 cex) 1 2 = false /\
+       ok_step RBefore (mrun0 RBefore 2 cex) 1 (XLoad 1 Relaxed) = true /\
+       cands RBefore (mrun0 RBefore 2 cex) 1 Relaxed = Some [1; 2].
 Proof. exact coherence_counterexample_before_fix. Qed.
 Print Assumptions C03_coherence_counterexample_before_fix.
 
-(* computed: the listed finding D19 in the model: loads can still order a store between an RMW's source and the RMW's own store *)
-Theorem C03_rmw_gap_example :
+(* computed: with the rule before fix 01ecff8 loads order a store between an RMW's source and the RMW's own store *)
+Theorem C03_rmw_gap_before_fix :
   let evs :=
          [(1, XStore 10 Relaxed); (2, XStore 20 Relaxed); (2, XRmw 2 inc1 Relaxed Relaxed);
           (3, XLoad 2 Relaxed); (3, XLoad 1 Relaxed); (0, XLoad 1 Relaxed); (
           0, XLoad 3 Relaxed)] in
-       lt_in (mrun0 true 4 evs) 2 1 = true /\ lt_in (mrun0 true 4 evs) 1 3 = true.
-Proof. exact rmw_gap_example. Qed.
-Print Assumptions C03_rmw_gap_example.
+       lt_in (mrun0 RC0421 4 evs) 2 1 = true /\ lt_in (mrun0 RC0421 4 evs) 1 3 = true.
+Proof. exact rmw_gap_before_fix. Qed.
+Print Assumptions C03_rmw_gap_before_fix.
+
+(* computed: the model's current functions refuse both orders of that scenario *)
+Theorem C03_rmw_gap_refused :
+  is_some (mrun0 RModel 4 gapA) = true /\
+       ok_step RModel (mrun0 RModel 4 gapA) 0 (XLoad 3 Relaxed) = false /\
+       lt_in (mrun0 RModel 4 gapA) 3 1 = true /\
+       is_some (mrun0 RModel 4 gapB) = true /\
+       ok_step RModel (mrun0 RModel 4 gapB) 3 (XLoad 1 Relaxed) = false /\
+       lt_in (mrun0 RModel 4 gapB) 1 2 = true /\
+       ok_step RC0421 (mrun0 RC0421 4 gapA) 0 (XLoad 3 Relaxed) = true /\
+       ok_step RC0421 (mrun0 RC0421 4 gapB) 3 (XLoad 1 Relaxed) = true.
+Proof. exact rmw_gap_refused. Qed.
+Print Assumptions C03_rmw_gap_refused.
+
+(* computed, exhaustive (4 threads x 3 steps, 3 threads x 4 steps after store | store ; fetch_add): with the model's current functions no modification-order edge is lost, no two clocks are equal, every RMW store immediately follows its source, and every state is closed *)
+Theorem C03_search_closure_clean :
+  search_m0 RModel 4 gp 3 = None /\ search_m0 RModel 3 gp 4 = None.
+Proof. exact search_closure_clean. Qed.
+Print Assumptions C03_search_closure_clean.
 
